@@ -372,6 +372,9 @@ def r033(report, g, lm):
 
 def run(report, index, tier):
     M = models(index)
+    from .c20 import guard_tokens, guard_transcriptions
+    guard_tokens(report, index, M)
+    guard_transcriptions(index, M, report, depth=2)
     g, A = M.grammar, M.actions
     report.explanation = (
         'CFG layer of the parser decided statically: the grammar is read '
